@@ -144,7 +144,8 @@ def c13_4(ctx, r):
     r.check(all(ctx.src(c.test) in ("results", "_results") for c in conds), "_write_results writes every row it is given", key_of(wf, "conditional rows"), wf.loc(),
             "_write_results drops rows conditionally")
     # state reset
-    pf = ctx.fn("Cluster.prepare_for_resubmission", "C13.4")
+    pf = ctx.ix.try_func("Cluster._prepare_for_resubmission") or ctx.fn("Cluster.prepare_for_resubmission", "C13.4")
+    ctx.counters["functions"].add(pf.qual)
     for n in iter_own(pf.node):
         if isinstance(n, ast.Assign):
             for t in n.targets:
